@@ -607,7 +607,9 @@ def _run(check: Check, tier: str, seed: int, replay: Optional[str], t0: float) -
         cases = [payload["case"]] if "case" in payload else []
     else:
         cases = check.corpus() + check.gen_cases(rng, tier)
-    disagreements, violations = _eval_cases(check, cases, built, stats)
+    # the model side needs only the model modules (run_driver builds them itself): a Props module that no longer builds
+    # must not switch the correspondence off, or a broken obligation would hide the disagreeing inputs
+    disagreements, violations = _eval_cases(check, cases, True, stats)
     if replay:
         print(json.dumps({"disagreements": jsonable(disagreements), "violations": jsonable(violations)}, indent=1))
     for d in disagreements[:5]:
